@@ -3,15 +3,19 @@ import math
 
 from harness import dtwgen
 
-COQ_FILES = ["theories/Subseq.v", "props/C13.v"]
+COQ_FILES = ["theories/Subseq.v", "theories/KBest.v", "props/C13.v"]
 THEOREMS = [("DVProps.C13", n) for n in ("C13_matching_is_lower_bound_for_every_start",
-                                         "C13_matching_attained_by_a_path", "C13_matching_le_every_path")]
+                                         "C13_matching_attained_by_a_path", "C13_matching_le_every_path",
+                                         "C13_kbest_iterator", "C13_no_overlap_one_shared_sample",
+                                         "C13_kbest_terminates")]
 TRUSTED_BASE = [
     "Coq 8.16.1 kernel",
     "SubsequenceAlignment is dtw.warping_paths with psi=(0,0,len,len) (modelled by DtwSpec) plus glue "
     "(_compute_matching, segment/path extraction, the k-best iterator) tied by correspondence: matching function vs "
-    "exhaustive minimum over start points computed by the extracted DTW model; iterator invariants checked on the "
-    "implementation (partial)",
+    "exhaustive minimum over start points computed by the extracted DTW model; the k-best iterator is modelled as a "
+    "state machine (KBest.v: order, distinct ends, limits, disjoint masked ranges, termination PROVED) and the "
+    "extracted machine (oracle command kbest), fed with the implementation's own matching function and segment "
+    "begins, must yield exactly the implementation's sequence of matches",
     "extraction + driver.ml",
 ]
 ASSUMPTIONS = ["exact arithmetic (integer series, integer penalty)"]
@@ -82,6 +86,9 @@ def impl_run(case):
         ms = [{"idx": int(m.idx), "value": float(m.value), "segment": [int(x) for x in m.segment]}
               for m in sa.kbest_matches(**kw)]
         res["kbest"] = ms
+        # the extracted iterator machine on this object's matching function and segment begins
+        res["model_kbest"] = kbest_model(case, [float(x) for x in mf],
+                                         [int(sa.get_match(i).segment[0]) for i in range(len(mf))], len(q))
         # interleaved iteration of two generators over the same object
         g1, g2 = sa.kbest_matches(**kw), sa.kbest_matches(**kw)
         i1, i2 = [], []
@@ -97,6 +104,28 @@ def impl_run(case):
         res["inter"] = [i1, i2]
         out[eng] = res
     return out
+
+
+def kbest_model(case, mf, begs, lq):
+    """run KBest.kbest (extracted) : values enter as ranks (only comparisons matter), inf as -1"""
+    import os
+    import subprocess
+    fin = sorted(set(v for v in mf if v != math.inf))
+    rank = {v: k for k, v in enumerate(fin)}
+    slots = [-1 if v == math.inf else rank[v] for v in mf]
+    # matching[:min(len(query) - 1, overlap)] = maxv
+    for i in range(min(lq - 1, case["overlap"], len(slots))):
+        slots[i] = -1 if any(v == math.inf for v in mf) else -2
+    maxinf = 1 if any(v == math.inf for v in mf) else 0
+    line = "kbest %d %s %s %d %d %d %d %d" % (
+        len(mf), " ".join(map(str, slots)), " ".join(map(str, begs)), case["overlap"],
+        0 if case["minlength"] is None else case["minlength"], -1 if case["maxlength"] is None else case["maxlength"],
+        maxinf, -1 if case["k"] is None else case["k"])
+    exe = os.path.join(os.path.dirname(os.path.dirname(os.path.dirname(os.path.abspath(__file__)))), "coq", "extract", "oracle")
+    out = subprocess.run([exe], input=line + "\n", capture_output=True, text=True, timeout=60).stdout.strip()
+    if out.startswith("ERR"):
+        return {"err": out}
+    return [[int(t) for t in p.split(",")] for p in out.split()] if out else []
 
 
 def judge(case, got, exp):
@@ -151,6 +180,11 @@ def judge(case, got, exp):
                     inter = min(e1, e2) - max(b1, b2) + 1
                     if inter > 1:
                         return {"kind": "kbest-overlap:" + eng, "segments": [[b1, e1], [b2, e2]]}
+        mk = r.get("model_kbest")
+        if isinstance(mk, dict):
+            return {"kind": "oracle-error", "detail": mk}
+        if mk is not None and mk != [m["segment"] for m in ms]:
+            return {"kind": "kbest-differs-from-iterator-model:" + eng, "got": [m["segment"] for m in ms], "model": mk}
         if r["inter"][0] != idxs or r["inter"][1] != idxs:
             return {"kind": "interleaved-iteration-differs:" + eng, "separate": idxs, "interleaved": r["inter"]}
     if [m["idx"] for m in g["py"]["kbest"]] != [m["idx"] for m in g["c"]["kbest"]]:
